@@ -643,3 +643,89 @@ def prefilter_lines(tier):
                     d[13] = ht
                 out.append(bytes(d).hex() or "-")
     return out
+
+
+# ------------------------------------------------------------------ TLS over TCP (oracle only)
+
+def tcp_line(c):
+    """case line for harness/h_tls_tcp.c from a Case (same credential fields)"""
+    return " ".join(["c19t", str(c.seed), "-" if c.cid is None else hx(c.cid),
+                     "-" if c.ckey is None else hx(c.ckey), c.csni.decode() if c.csni else "-",
+                     tbl(c.cih), hx(c.shint), hx(c.skey), tbl(c.sids), tbl(c.ssni)] + c.ops)
+
+
+def gen_tcp_cases(r, tier):
+    cases = []
+    for i, (nm, kw) in enumerate(cred_matrix()):
+        c = Case(seed=i, ops=["C", "qc1", "qn2", "qc3"], **kw)
+        c.kind = "tcp-cred/" + nm
+        cases.append(c)
+    inj = ["@req9", "40", "1603030005", "170303000a" + "41" * 10, "d1" + "00" * 20]
+    for j in inj:
+        for ops in (["C", "ic" + j, "qc1", "r50"], ["C", "qc1", "ic" + j, "qc2", "r50"],
+                    ["C1", "ic" + j, "r", "qc1"], ["C2", "ic" + j, "r", "qc1"], ["C3", "ic" + j, "r", "qc1"],
+                    ["C4", "ic" + j, "r", "qc1"], ["C6", "ic" + j, "r", "qc1"], ["C9", "ic" + j, "r", "qc1"],
+                    ["C", "is" + j, "qc1", "r50"], ["C2", "is" + j, "r", "qc1"], ["C4", "is" + j, "r", "qc1"]):
+            c = Case(seed=3, ops=ops)
+            c.kind = "tcp-inject"
+            cases.append(c)
+    n = 40 if tier == "quick" else 400
+    cm = cred_matrix()
+    for i in range(n):
+        nm, kw = ("match", {}) if r.random() < 0.5 else r.choice(cm)
+        ops = ["C%d" % r.randrange(1, 12), "r"] if r.random() < 0.3 else ["C"]
+        for k in range(r.randrange(0, 6)):
+            x = r.random()
+            if x < 0.6:
+                ops.append(("qc%d" if r.random() < 0.5 else "qn%d") % (k + 1))
+            elif x < 0.8:
+                ops.append(r.choice(["ic", "is"]) + r.choice(inj))
+            else:
+                ops.append("r%d" % r.randrange(1, 60))
+        c = Case(seed=i, ops=ops, **kw)
+        c.kind = "tcp-random/" + nm
+        cases.append(c)
+    return cases
+
+
+def tcp_oracle(case, trace, match):
+    """the property on the TLS-over-TCP run, implementation alone"""
+    bad = []
+    toks = trace.split()
+    hs = {"c": False, "s": False}
+    q, sreq, rsp = [], [], []
+    injected = any(op.startswith("i") for op in case.ops)
+    for t in toks:
+        f = t.split(":")
+        if t in ("c.hs:0", "s.hs:0"):
+            hs[t[0]] = True
+            if not match:
+                bad.append("TLS handshake completed on the %s side although the credentials do not match" % ("client" if t[0] == "c" else "server"))
+        elif f[0] == "s.req":
+            if not hs["s"]:
+                bad.append("request %s delivered to the server handler before the TLS handshake completed" % f[1])
+            if f[2] == "INJECTED":
+                bad.append("cleartext request injected into the TCP stream reached the server handler")
+            sreq.append(int(f[1]))
+        elif f[0] == "c.rsp":
+            if not hs["c"]:
+                bad.append("response %s delivered to the client handler before the TLS handshake completed" % f[1])
+            rsp.append(int(f[1]))
+        elif f[0] == "c.st" and f[1] == "4" and not hs["c"]:
+            bad.append("TLS client session ESTABLISHED without a completed handshake")
+        elif f[0] == "a.q" and f[1] != "skip" and f[2] != "-1":
+            q.append(int(f[1]))
+        elif f[0] == "n.dir":
+            if "f" not in f[4]:
+                bad.append("bytes that are not TLS records on the %s->peer stream" % f[1])
+            if "P" in f[4]:
+                bad.append("cleartext CoAP in the %s->peer TCP stream" % f[1])
+    if not match and (sreq or rsp):
+        bad.append("application data exchanged over TLS although the credentials do not match")
+    if match and not injected and case.ops and case.ops[0] == "C":
+        if q != sreq or q != rsp:
+            bad.append("TLS, matching credentials: requests %s, server saw %s, client saw %s" % (q, sreq, rsp))
+    for k in set(sreq):
+        if sreq.count(k) > 1:
+            bad.append("request %d delivered %d times over TLS" % (k, sreq.count(k)))
+    return bad
